@@ -17,7 +17,7 @@ PROPS = {
     "C01": {
         "title": "exactly-once delivery",
         "rules": [r_m1.rule_atom, r_m1.rule_one, r_m1.rule_prov, r_m1.rule_amt, r_m1.rule_clamp, r_m1.rule_endguard,
-                  r_m1.rule_complete, r_m1.rule_ctor, r_ticket.rule_ticket, r_ticket.rule_gate, r_live.rule_amt_pub, r_m1.rule_exact],
+                  r_m1.rule_complete, r_m1.rule_ctor, r_ticket.rule_ticket, r_ticket.rule_gate, r_live.rule_amt_pub, r_m1.rule_exact, r_fwd.rule_siblings],
         "explanation": "Decides that the code is an instance of the fetch_add-interval protocol (DESIGN 1.2, M1/M2): for every "
                        "world (5 implementors + 4 adaptor instantiations) x every pull unit (single, one-shot chunk, buffered) "
                        "the unit is evaluated with crate-local callees inlined; rules: ATOM (who may write the counters; no "
@@ -144,7 +144,8 @@ PROPS = {
     },
     "C11": {
         "title": "try_get_len / has_more",
-        "rules": [r_state.rule_len, r_state.rule_done, r_ticket.rule_sticky, r_m1.rule_atom, r_ovf.rule_ovf, r_ovf.rule_zero],
+        "rules": [r_state.rule_len, r_state.rule_done, r_ticket.rule_sticky, r_m1.rule_atom, r_ovf.rule_ovf, r_ovf.rule_zero,
+                  r_fwd.rule_siblings],
         "explanation": "LEN: try_get_len is LEN - counter under counter < LEN else 0 for the four known-size sources; the "
                        "wrapper answers 0 once the end flag is set, else captured-exact-length - counter; the length is "
                        "captured only when lower == upper; has_more maps None/Some(0)/Some(n) to Maybe/No/Yes(n) and is not "
@@ -215,7 +216,7 @@ PROPS = {
     },
     "C17": {
         "title": "debug = release; std preconditions",
-        "rules": [r_own.rule_pre, r_own.rule_view, r_ovf.rule_ovf],
+        "rules": [r_own.rule_pre, r_own.rule_view, r_ovf.rule_ovf, r_fwd.rule_cfgdiff],
         "explanation": "The profile-sensitive constructs are enumerated from MIR: overflow asserts (OVF: each discharged, so "
                        "checked and unchecked builds agree), debug_assert! conditions (PRE.dbg: entailed at every call site), "
                        "calls of unsafe std functions with preconditions checked only in debug builds of std (PRE: per-callee "
